@@ -229,6 +229,38 @@ def resHeaders (c : Conn) : R := resHeadersLoop cfg ((c.out.len - c.out.read).to
 /-- bstr_index_of_c_nocasenorzero(te->value, "chunked") != -1 -/
 def teHasChunked (v : Bytes) : Bool := (Bstr.indexOfMemNocaseNorzero v (b!"chunked")).isSome
 
+/-- steps 3-5 of htp_connp_RES_BODY_DETERMINE: Content-Length, multipart/byteranges, close-delimited -/
+def resCl (cl ct : Option Header) (uid : Nat) (c : Conn) : R :=
+  match cl with
+  | some cl =>
+    let c := c.modTx uid (fun t => { t with resTransferCoding := CODING_IDENTITY,
+                                            flags := if hasFlag cl.flags FIELD_REPEATED then t.flags ||| REQUEST_SMUGGLING else t.flags })
+    let n := Num.parseContentLength cl.value
+    let c := c.modTx uid (fun t => { t with resContentLength := n })
+    if n < 0 then (c, .error) else
+    let c := { c with out := { c.out with contentLength := n, bodyDataLeft := n } }
+    if n != 0 then ({ c with outState := .bodyIdentityClKnown }.modTx uid (fun t => { t with resProgress := 3 }), .ok)
+    else ({ c with outState := .finalize }, .ok)
+  | none =>
+    let bad := match ct with
+      | some ct => (Bstr.indexOfMemNocase ct.value (b!"multipart/byteranges")).isSome
+      | none => false
+    if bad then (c, .error) else
+    let c := c.modTx uid (fun t => { t with resTransferCoding := CODING_IDENTITY, resProgress := 3 })
+    ({ c with outState := .bodyIdentityStreamClose, out := { c.out with bodyDataLeft := -1 } }, .ok)
+
+/-- the framing arbitration of htp_connp_RES_BODY_DETERMINE (step 2 onwards): a Transfer-Encoding that mentions chunked
+    wins over Content-Length, and the two together are flagged -/
+def resFraming (te cl ct : Option Header) (uid : Nat) (c : Conn) : R :=
+  match te with
+  | some te' =>
+    if teHasChunked te'.value then
+      let c := c.modTx uid (fun t => { t with resTransferCoding := CODING_CHUNKED, resProgress := 3,
+                                              flags := if cl.isSome then t.flags ||| REQUEST_SMUGGLING else t.flags })
+      ({ c with outState := .bodyChunkedLength }, .ok)
+    else resCl cl ct uid c
+  | none => resCl cl ct uid c
+
 /-- htp_connp_RES_BODY_DETERMINE -/
 def resBodyDetermine (c : Conn) : R :=
   match c.out.tx with
@@ -291,35 +323,9 @@ def resBodyDetermine (c : Conn) : R :=
           let low := Bstr.toLowercase ct.value
           c.modTx uid (fun t => { t with resContentType := some (low.takeWhile (fun b => !(isSpace b || b == 0x3b))) })
         | none => c
-      match te with
-      | some te' =>
-        if teHasChunked te'.value then
-          let c := c.modTx uid (fun t => { t with resTransferCoding := CODING_CHUNKED, resProgress := 3,
-                                                  flags := if cl.isSome then t.flags ||| REQUEST_SMUGGLING else t.flags })
-          ({ c with outState := .bodyChunkedLength }, .ok)
-        else resCl cl ct uid c
-      | none => resCl cl ct uid c
+      resFraming te cl ct uid c
     else (c, .ok)
   r >>? fun c => txStateResponseHeaders cfg uid c
-where
-  resCl (cl ct : Option Header) (uid : Nat) (c : Conn) : R :=
-    match cl with
-    | some cl =>
-      let c := c.modTx uid (fun t => { t with resTransferCoding := CODING_IDENTITY,
-                                              flags := if hasFlag cl.flags FIELD_REPEATED then t.flags ||| REQUEST_SMUGGLING else t.flags })
-      let n := Num.parseContentLength cl.value
-      let c := c.modTx uid (fun t => { t with resContentLength := n })
-      if n < 0 then (c, .error) else
-      let c := { c with out := { c.out with contentLength := n, bodyDataLeft := n } }
-      if n != 0 then ({ c with outState := .bodyIdentityClKnown }.modTx uid (fun t => { t with resProgress := 3 }), .ok)
-      else ({ c with outState := .finalize }, .ok)
-    | none =>
-      let bad := match ct with
-        | some ct => (Bstr.indexOfMemNocase ct.value (b!"multipart/byteranges")).isSome
-        | none => false
-      if bad then (c, .error) else
-      let c := c.modTx uid (fun t => { t with resTransferCoding := CODING_IDENTITY, resProgress := 3 })
-      ({ c with outState := .bodyIdentityStreamClose, out := { c.out with bodyDataLeft := -1 } }, .ok)
 
 /-- htp_connp_RES_BODY_IDENTITY_CL_KNOWN -/
 def resBodyIdentityClKnown (c : Conn) : R :=
